@@ -28,7 +28,7 @@ TIERS = {"quick": dict(shards=8, examples=1200, alt_ppqn=[480], alt_shards=2),
 @st.composite
 def _case(draw, size=1):
     k = draw(st.integers(1, 4))
-    pitches = draw(st.sampled_from([(60, 61), (60,), (60, 61, 62), (21, 108), (0, 127)]))
+    pitches = draw(gens.pitch_pool([(60, 61), (60,), (60, 61, 62)]))
     ts_ticks = draw(st.lists(st.integers(0, 150), max_size=4, unique=True))
     ks_ticks = draw(st.lists(st.integers(0, 150), max_size=4, unique=True))
     metas = [[] for _ in range(k)]
